@@ -129,9 +129,77 @@ func checkC06(c *Ctx) {
 				fmt.Sprintf("state %d on look-ahead %s: %s, reference says %s (levels %v vs %v)", st.Num, t2, got, want, l1, l2))
 		}
 	}
+	// ---- the same matrix by driving the automaton: `ID T1 ID T2 ID` must group as the reference says, whatever shape
+	// the productions have (operator classes folded into non-terminals, precedence-climbing non-terminals, %prec …)
+	simOK := map[string]bool{}
+	nSim := 0
+	for _, t1 := range ref.Binary {
+		l1, _, _ := ref.levelOf(t1)
+		rowOK := true
+		for _, t2 := range ref.Binary {
+			l2, a2, _ := ref.levelOf(t2)
+			want := "right"
+			if l1 > l2 || (l1 == l2 && a2 == "left") {
+				want = "left"
+			}
+			for _, layout := range []bool{false, true} {
+				toks := []string{"START_STMTS", "ID", t1, "ID", t2, "ID", "EOF"}
+				o1, o2 := 2, 4
+				name := fmt.Sprintf("parse of `a %s b %s c`", t1, t2)
+				if layout {
+					toks = []string{"START_STMTS", "ID", t1, "EOL", "ID", t2, "EOL", "EOL", "ID", "EOF"}
+					o1, o2 = 2, 5
+					name = fmt.Sprintf("parse of `a %s⏎ b %s⏎⏎ c`", t1, t2)
+				}
+				reds, err := g.simulate(toks)
+				got := ""
+				if err != nil {
+					got = "error: " + err.Error()
+				} else {
+					got = groupingOf(reds, o1, o2)
+				}
+				nSim++
+				if got != want {
+					rowOK = false
+				}
+				r.Ob("PREC-SIM", name, "pkg/parser/gram.y", got == want,
+					fmt.Sprintf("the LALR automaton of gram.y groups it %s; the reference says %s (levels %v vs %v)", got, want, l1, l2))
+			}
+		}
+		simOK[t1] = rowOK
+	}
+	for _, u := range ref.Unary {
+		for _, t2 := range ref.Binary {
+			toks := []string{"START_STMTS", u, "ID", t2, "ID", "EOF"}
+			reds, err := g.simulate(toks)
+			got := "none"
+			if err != nil {
+				got = "error: " + err.Error()
+			} else {
+				// the smallest reduction that covers the unary operator token and an operand: its span must end before T2
+				best := [2]int{0, 1 << 30}
+				for _, rd := range reds {
+					if rd.Span[0] <= 1 && rd.Span[1] > 2 && rd.Span[1]-rd.Span[0] < best[1]-best[0] {
+						best = rd.Span
+					}
+				}
+				if best[1] == 3 {
+					got = "tight"
+				} else {
+					got = fmt.Sprintf("operand spans tokens [%d,%d)", best[0], best[1])
+				}
+			}
+			nSim++
+			r.Ob("PREC-SIM", fmt.Sprintf("parse of `%s a %s b`", u, t2), "pkg/parser/gram.y", got == "tight",
+				"the unary operator must apply to `a` alone: "+got)
+		}
+	}
+	r.Floor("PREC-SIM", 2*196+3*14)
 	for _, t := range ref.Binary {
 		if !seenOp[t] {
-			r.Ob("PREC-MATRIX", "row "+t, "pkg/parser/gram.y", false, "no production `expr "+t+" SPACE_EOLS expr` found: the operator is not part of the expression grammar any more")
+			// the operator is not listed in a plain `expr T SPACE_EOLS expr` production (folded into an operator class, say):
+			// its row is then decided by the simulation alone
+			r.Ob("PREC-MATRIX", "row "+t, "pkg/parser/gram.y", simOK[t], "no production `expr "+t+" SPACE_EOLS expr`; the row is decided by PREC-SIM (every `a "+t+" b T2 c` parsed on the automaton)")
 		}
 	}
 	// unary rows
@@ -193,7 +261,7 @@ func checkC06(c *Ctx) {
 			}
 		}
 	}
-	r.Floor("PREC-MATRIX", 196)
+	r.FloorN("PREC-MATRIX rows (state-based or simulated)", len(ref.Binary), 14)
 	r.Floor("PREC-UNARY", 42)
 	r.Floor("PREC-ASSIGN", 5*14)
 
@@ -292,8 +360,8 @@ func treeFlowRules(c *Ctx, g *Gram, ref *precRef, rule string) {
 			r.Undecided(rule, fmt.Sprintf("rule %d %s", p.Num, p.LHS), fmt.Sprintf("pkg/parser/gram.y:%d", p.Line), pr)
 		}
 		switch {
-		case len(p.RHS) == 4 && opset[p.RHS[1]] && p.RHS[2] == "SPACE_EOLS":
-			nbin++
+		case len(p.RHS) == 4 && p.RHS[2] == "SPACE_EOLS" && allIn(g.tokenClass(p.RHS[1]), opset):
+			nbin += len(g.tokenClass(p.RHS[1])) // an operator class counts once per operator it stands for
 			want(p, ff, ".LHS", "$1")
 			want(p, ff, ".RHS", "$4")
 			want(p, ff, ".OpPos", "$2.Pos")
@@ -531,6 +599,21 @@ func layoutRules(c *Ctx, g *Gram, ref *precRef) {
 				continue // prefix operator: the spec gives no layout freedom after a sign
 			}
 			ok := i+1 < len(p.RHS) && p.RHS[i+1] == "SPACE_EOLS"
+			if !ok && i == len(p.RHS)-1 && len(p.RHS) == 1 {
+				// an operator-class non-terminal (`cmp_op: LT | GT …`): the layout follows the class where it is used
+				uses, okUses := 0, true
+				for _, q := range g.Prods[1:] {
+					for j, sym := range q.RHS {
+						if sym == p.LHS {
+							uses++
+							if !(j+1 < len(q.RHS) && q.RHS[j+1] == "SPACE_EOLS") {
+								okUses = false
+							}
+						}
+					}
+				}
+				ok = uses > 0 && okUses
+			}
 			r.Ob("LAYOUT-AFTER", fmt.Sprintf("`%s: %s` after $%d %s", p.LHS, strings.Join(p.RHS, " "), i+1, s), fmt.Sprintf("pkg/parser/gram.y:%d", p.Line), ok,
 				"an infix operator, comma, colon or opening bracket must be followed by the nullable SPACE_EOLS so that blanks, comments and line breaks are admitted there")
 		}
@@ -781,4 +864,16 @@ func lexCommentExtent(c *Ctx, commentV int64) {
 		r.Ob("LEX-LAYOUT", who+" ends a COMMENT item before the next line terminator", t.Pos(emitC.Pos()), okA || okB, detail)
 	}
 	r.FloorN("states that emit COMMENT", n, 1)
+}
+
+func allIn(xs []string, set map[string]bool) bool {
+	if len(xs) == 0 {
+		return false
+	}
+	for _, x := range xs {
+		if !set[x] {
+			return false
+		}
+	}
+	return true
 }
